@@ -63,7 +63,7 @@ func main() {
 						r.HarnessError("replay: %v", err)
 					}
 				} else {
-					fmt.Println("replay: no violation reproduced")
+					vk.NoRepro()
 				}
 			}
 		}
@@ -78,7 +78,7 @@ func main() {
 						r.HarnessError("replay: %v", err)
 					}
 				} else {
-					fmt.Println("replay: no violation reproduced")
+					vk.NoRepro()
 				}
 			}
 		}
